@@ -64,12 +64,6 @@ def removeDuplicatesGo : List Str → List Str → List Str
 
 def removeDuplicates (l : List Str) : List Str := removeDuplicatesGo l []
 
-/-- `QStringList::join(sep)` -/
-def join (sep : Char) : List Str → Str
-  | [] => []
-  | [a] => a
-  | a :: b :: r => a ++ sep :: join sep (b :: r)
-
 /-! ### the info set (a `QXmppDiscoveryIq` as far as the hash looks at it) -/
 
 structure Identity where
@@ -129,16 +123,24 @@ def Value.toStr : Value → Str
   | .bool true => "true".toList
   | .bool false => "false".toList
 
-/-- the values the C++ appends for a field, as a list: `canConvert<QStringList>()` holds for QString
-(one-element list) and QStringList (sorted with `octetLessThan`), not for bool (`toString()`) -/
-def Value.codeVals : Value → List Str
+/-- the XML character data of the `<value/>` children `QXmppDataForm::toXml` writes for the field (and which
+`QXmppDataForm::parse` turns back into the same variant): an empty single value writes no element,
+a boolean writes `1` / `0`, a list writes one element per entry -/
+def Value.wire : Value → List Str
+  | .text [] => []
   | .text s => [s]
-  | .list vs => isort lt8 vs
-  | .bool b => [(Value.bool b).toStr]
+  | .list vs => vs
+  | .bool true => [['1']]
+  | .bool false => [['0']]
 
-/-- `key + '<' + list.join('<') + '<'` -/
+/-- the values the C++ appends for a field (since repo commit 03b8892 "caps hash covers exactly the values written for
+extended info form fields"): by field type exactly the `<value/>` elements `toXml` writes — boolean `1`/`0`, multi-valued
+types the list, every other type the string unless empty — sorted with `octetLessThan` -/
+def Value.codeVals (v : Value) : List Str := isort lt8 v.wire
+
+/-- `key + '<'`, then every value followed by `'<'` -/
 def fieldStrCode (f : Field) : Str :=
-  f.key ++ '<' :: (join '<' f.value.codeVals ++ ['<'])
+  f.key ++ '<' :: (f.value.codeVals.flatMap (fun v => v ++ ['<']))
 
 /-- `QMap<QString, Field>::insert`: the map is a list sorted strictly by key (`QString::operator<`, UTF-16 order);
 an existing key is replaced -/
@@ -179,16 +181,6 @@ def verStringCode (i : Info) : Str :=
 
 /-! ### what XEP-0115 §5.1 says -/
 
-/-- the XML character data of the `<value/>` children `QXmppDataForm::toXml` writes for the field (and which
-`QXmppDataForm::parse` turns back into the same variant): an empty single value writes no element,
-a boolean writes `1` / `0`, a list writes one element per entry -/
-def Value.wire : Value → List Str
-  | .text [] => []
-  | .text s => [s]
-  | .list vs => vs
-  | .bool true => [['1']]
-  | .bool false => [['0']]
-
 /-- 7.c: `var<` then every value, sorted, each followed by `<` -/
 def fieldStrSpec (f : Field) : Str :=
   f.key ++ '<' :: ((isort lt8 f.value.wire).flatMap (fun v => v ++ ['<']))
@@ -204,12 +196,13 @@ def formStrSpec : Option (List Field) → Str
       ft.value.wire.flatten ++ '<' ::
         ((isort keyLt8 (fields.filter (fun f => f.key ≠ formTypeKey))).flatMap fieldStrSpec)
 
-/-- the XEP's domain for the form: `var` unique (XEP-0004 §3.2), FORM_TYPE carries exactly one value -/
+/-- the XEP's domain for the form: `var` unique (XEP-0004 §3.2), FORM_TYPE is a string field (type `hidden`, §5.4 item 6)
+carrying exactly one value -/
 def XepForm : Option (List Field) → Prop
   | none => True
   | some fields =>
     (fields.map Field.key).Nodup ∧
-    ∀ f ∈ fields, f.key = formTypeKey → ∃ v, f.value.wire = [v]
+    ∀ f ∈ fields, f.key = formTypeKey → (∃ v, f.value.wire = [v]) ∧ ∀ b, f.value ≠ .bool b
 
 /-- §5.1 steps 2–5: identities sorted by category, type, lang (ties between identities that differ only
 in the name are left open by the XEP; the name is used), features sorted; the feature list of a
@@ -258,13 +251,15 @@ def answeredInfo (c : ClientCfg) (queryNode : Str) : Option Info :=
 
 /-! ### a client over a history: the stored presence, the sites that emit it, queries
 
-`QXmppClientPrivate::clientPresence` is a stored stanza.  Its caps (`node`, `ver`) are (re)computed by
-`addProperCapability` ONLY in `setClientPresence` and `connectToServer` (and in the constructor, before any extension exists).
-The other emission sites send the stored copy as it is:
+`QXmppClientPrivate::clientPresence` is a stored stanza.  Its caps (`node`, `ver`) are recomputed by
+`addProperCapability` in `setClientPresence`, `connectToServer` and — since repo commit 032336b "recompute entity
+capabilities wherever the stored presence is emitted" — at every site that sends or hands out the stored copy:
   * `_q_streamConnected` — initial presence at every session start, including automatic reconnection;
   * `disconnectFromServer` — the unavailable presence;
-  * `QXmppMucRoom::join`, nick change, own-presence reflection — built from `client()->clientPresence()`.
-`QXmppPresence::toXml` writes `<c/>` only when the stored node is non-empty. -/
+  * `clientPresence()` — hence `QXmppMucRoom::join`, nick change, own-presence reflection, and any presence the
+    application derives from it.
+`QXmppPresence::toXml` writes `<c/>` only when the stored node is non-empty.  Presences built from scratch
+(`QXmppMucRoom::leave`, roster subscription presences, `QXmppMovedManager`) carry no caps element at all. -/
 
 /-- caps computed by `addProperCapability` for a configuration, as they appear on the wire:
 `none` = no `<c/>` (empty capabilities node), `some (node, ver)` -/
@@ -276,7 +271,7 @@ structure ClientSt (β : Type) where
   cfg : ClientCfg
   stored : Option (Str × β) := none
 
-/-- emission sites that send the stored presence without recomputing its caps -/
+/-- emission sites that send (a copy of) the stored presence -/
 inductive Site | sessionStart | disconnect | mucJoin
   deriving DecidableEq, Repr
 
@@ -289,7 +284,7 @@ inductive ClientOp
   | setClientPresence (derived : Bool)
   /-- `connectToServer(config, p)`: recompute, store; nothing is sent until the session starts -/
   | connectToServer (derived : Bool)
-  /-- one of the sites that send (a copy of) the stored presence -/
+  /-- one of the sites that recompute the caps of the stored presence and send (a copy of) it -/
   | emitStored (site : Site)
   /-- a disco#info `get` for this node -/
   | query (node : Str)
@@ -305,7 +300,7 @@ def clientStep {β : Type} (H : Str → β) (s : ClientSt β) : ClientOp → Cli
   | .configure c => ({ s with cfg := c }, [])
   | .setClientPresence _ => ({ s with stored := freshCaps H s.cfg }, [.presence (freshCaps H s.cfg)])
   | .connectToServer _ => ({ s with stored := freshCaps H s.cfg }, [])
-  | .emitStored _ => (s, [.presence s.stored])
+  | .emitStored _ => ({ s with stored := freshCaps H s.cfg }, [.presence (freshCaps H s.cfg)])
   | .query n => (s, [.answer ((answeredInfo s.cfg n).map (ver H))])
 
 /-- run a history; every output is recorded together with the state right after the step that produced it -/
